@@ -102,6 +102,11 @@ FirstOverClause(ls, i) ==
     IF i > Len(lines) THEN ""
     ELSE LET c == LineClause(ls[i], OverDen(lines[i].den)) IN
          IF c # "" THEN "line" \o ToString(i) \o ":" \o c ELSE FirstOverClause(ls, i + 1)
+RECURSIVE FirstEditClause(_, _)
+FirstEditClause(ls, i) ==
+    IF i > Len(lines) THEN ""
+    ELSE LET c == LineClause(ls[i], EditedDen(lines[i].den)) IN
+         IF c # "" THEN "line" \o ToString(i) \o ":" \o c ELSE FirstEditClause(ls, i + 1)
 RECURSIVE FirstRTClause(_, _, _)
 FirstRTClause(ls, i, wp) ==
     IF i > Len(lines) THEN ""
@@ -139,6 +144,11 @@ ObsClause(o) ==
          ELSE IF ~o.copy_indep THEN "copy-aliased"
          ELSE IF FirstLineClause(o.after_lines, 1) # "" THEN "copy-alias:" \o FirstLineClause(o.after_lines, 1)
          ELSE IF FirstOverClause(o.copy_over_lines, 1) # "" THEN "copy-over:" \o FirstOverClause(o.copy_over_lines, 1)
+         ELSE IF o.edit.low # EditLow \/ o.edit.high # EditHigh THEN "copy-edit-keys"
+         ELSE IF Len(o.edit_lines) # Len(lines) THEN "copy-edit-nlines"
+         ELSE IF ~o.edit_copy_eq THEN "copy-edit-neq"
+         ELSE IF ~o.edit_str_eq THEN "copy-edit-text"
+         ELSE IF FirstEditClause(o.edit_lines, 1) # "" THEN "copy-edit:" \o FirstEditClause(o.edit_lines, 1)
          ELSE LET cc == FirstLineClause(o.copy_lines, 1) IN
               IF cc # "" THEN "copy:" \o cc
               ELSE IF stage = "final"
